@@ -443,6 +443,117 @@ def failure_unchanged_postconditions(ctx, inst):
     ctx.oblige("post:failing exits found", n_none >= 1, inst, inst.get("span"), "%d exits return None" % n_none)
 
 
+def _reaches(facts, inst, suffixes, depth=6):
+    """does instance `inst` (transitively, through calls and closure references) reach a function whose dpath ends with one of suffixes?"""
+    seen, todo = set(), [inst["id"]]
+    for _ in range(depth):
+        nxt = []
+        for i in todo:
+            m = facts.mono.get(i)
+            if m is None or i in seen:
+                continue
+            seen.add(i)
+            if m["dpath"].endswith(suffixes):
+                return True
+            for b in m.get("blocks", []):
+                t = b["t"]
+                if t.get("k") == "call" and t.get("callee") is not None:
+                    nxt.append(t["callee"])
+            nxt.extend(m.get("fnrefs", []) if isinstance(m.get("fnrefs"), list) and all(isinstance(x, int) for x in m.get("fnrefs", [])) else [])
+        todo = nxt
+    return False
+
+
+def analyze_round_classes(facts, fty):
+    """C18 boundary classes of rounding::round::<F, _>: for (significand class, biased exponent) pairs on which interval arithmetic is exact,
+    the result fields must EQUAL the IEEE result: shift-64 subnormals (tie -> 0, above -> smallest subnormal), the largest subnormal rounding
+    up to the smallest normal, the carry into the next binade, and the overflow to infinity -- for the nearest-even instances; the
+    truncating instances must return the floor on the same classes."""
+    from ..consts import ieee
+    P, w, bias, p, bits = ieee(facts, fty)
+    inf = (1 << w) - 1
+    S = 64 - p - 1
+    top = 1 << 64
+    ctx = Ctx(facts, "valid")
+    ctx.record = True
+    insts = [m for m in find_insts(facts, "minimal_lexical::rounding::round", fty)]
+    classes = [
+        # label, (m_lo, m_hi), e, expected nearest-even (mant, exp), expected truncating (mant, exp)
+        ("shift 64, exact half of the smallest subnormal", (1 << 63, 1 << 63), -63, (0, 0), (0, 0)),
+        ("shift 64, above half of the smallest subnormal", ((1 << 63) + 1, top - 1), -63, (1, 0), (0, 0)),
+        ("largest subnormal, tie with odd lower neighbour", (top - (1 << S), top - (1 << S)), -S, (1 << p, 1), ((1 << p) - 1, 0)),
+        ("largest subnormal, above the tie", (top - (1 << S) + 1, top - 1), -S, (1 << p, 1), ((1 << p) - 1, 0)),
+        ("all-ones significand above the tie: carry into the next binade", (top - (1 << (S - 1)) + 1, top - 1), 5, (0, 5 + S + 1), ((1 << p) - 1, 5 + S)),
+        ("carry out of the largest finite binade: infinity", (top - (1 << (S - 1)) + 1, top - 1), inf - S - 1, (0, inf), ((1 << p) - 1, inf - 1)),
+        ("biased exponent already at the infinite power", (1 << 63, top - 1), inf - S, (0, inf), (0, inf)),
+    ]
+    def _captures(inst):
+        """does the rounding callback chain of this instance build a closure that captures state (a direction decided outside, e.g. by a
+        big-integer comparison)?  Then the generic nearest-even expectation does not apply."""
+        seen, todo = set(), [inst["id"]]
+        for _ in range(4):
+            nxt = []
+            for i in todo:
+                m = facts.mono.get(i)
+                if m is None or i in seen or "blocks" not in m:
+                    continue
+                seen.add(i)
+                for b in m["blocks"]:
+                    for st_ in b["s"]:
+                        rv = st_.get("rv") if st_["k"] == "assign" else None
+                        if rv and rv.get("rv") == "agg" and rv["kind"].get("agg") == "closure" and rv["ops"] and i != inst["id"]:
+                            return True
+                    t = b["t"]
+                    if t.get("k") == "call" and t.get("callee") is not None:
+                        c = facts.mono.get(t["callee"])
+                        if c is not None and c.get("krate") == "minimal_lexical":
+                            nxt.append(t["callee"])
+            todo = nxt
+        return False
+
+    n_ne = n_tr = n_ext = 0
+    for inst in insts:
+        ne = _reaches(facts, inst, ("rounding::round_nearest_tie_even",))
+        tr = (not ne) and _reaches(facts, inst, ("rounding::round_down",))
+        if ne and _captures(inst):
+            n_ext += 1
+            continue
+        if not (ne or tr):
+            continue
+        n_ne += ne
+        n_tr += tr
+        for label, (m0, m1), e, want_ne, want_tr in classes:
+            want = want_ne if ne else want_tr
+
+            def pre(st, fr, m0=m0, m1=m1, e=e):
+                ptr = st.env.get((fr, 1))
+                d = G.ptr.get(ptr)
+                if d and d[0] == "loc":
+                    st.env[d[1] + (("f", 0),)] = const_int(m0) if m0 == m1 else new_int(m0, m1)
+                    st.env[d[1] + (("f", 1),)] = const_int(e)
+            G.reset()
+            c2 = analyze_fn(facts, inst, "valid", ctx=ctx, pre=pre)
+            got = None
+            okk = bool(c2.exit_states)
+            for st, rv in c2.exit_states:
+                cells = {k[3]: a for k, a in st.env.items() if len(k) == 4 and k[1] == 1 and k[2] == "pointee"}
+                m, ee = cells.get(("f", 0)), cells.get(("f", 1))
+                if not (isinstance(m, int) and isinstance(ee, int) and m in G.base and ee in G.base):
+                    okk = False
+                    continue
+                M, E = st.get_iv(m), st.get_iv(ee)
+                got = (M, E)
+                if M != (want[0], want[0]) or E != (want[1], want[1]):
+                    okk = False
+            ctx.oblige("post:round(%s) on class: %s" % ("nearest-even" if ne else "truncating", label), okk, inst, inst.get("span"),
+                       "significand [%#x, %#x] biased exponent %d: got (mant, exp) = %s, IEEE result is %s" % (m0, m1, e, got, want))
+    any_inst = insts[0] if insts else {"dpath": "minimal_lexical::rounding::round", "path": "round", "targs": [], "krate": "minimal_lexical"}
+    ctx.oblige("post:round instances classified", n_ne + n_tr >= 1 and (n_ne >= 1 or "compact" not in facts.config), any_inst, any_inst.get("span") if insts else {}, "%d nearest-even, %d truncating, %d externally decided instances of round::<%s, _>" % (n_ne, n_tr, n_ext, fty))
+    ctx.exits = 0
+    ctx.wall = 0.0
+    return ctx
+
+
 def analyze_masks(facts):
     """C18, bit-mask helpers for all widths 0..=64: the width range is partitioned into {0},{1},[2,62],{63},{64}; on each class the abstract
     result of lower_n_mask / lower_n_halfway / nth_bit must lie inside the hull of the definition (2^n - 1, 2^(n-1) or 0, 2^n) over that class.
@@ -640,6 +751,11 @@ if __name__ == "__main__":
     from mlxsa import facts as F
     if sys.argv[1] == "fn":
         main_fn(sys.argv[2:])
+        sys.exit(0)
+    if sys.argv[1] == "roundcls":
+        f = F.build(sys.argv[2], sys.argv[3])
+        for fty in ("f32", "f64"):
+            report(analyze_round_classes(f, fty), only_failed="--all" not in sys.argv)
         sys.exit(0)
     if sys.argv[1] == "masks":
         f = F.build(sys.argv[2], sys.argv[3])
